@@ -23,8 +23,11 @@ pub struct FileEval {
     pub valid_diags: Vec<String>,
 }
 
+thread_local! { static HOSTILE: std::cell::Cell<bool> = std::cell::Cell::new(false); }
+
 pub fn evaluate(files: &[(String, String)]) -> Result<Vec<FileEval>, String> {
     let p = libx::parse_project(files)?;
+    HOSTILE.with(|h| h.set(p.hostile));
     let keys = rval::key_table(p.stage.values().filter_map(|r| r.ast.as_ref()));
     let mut out = Vec::new();
     let mut ids: Vec<&String> = p.stage.keys().collect();
@@ -99,6 +102,9 @@ pub fn judge(w: Which, stage: &str, i: u64, files: &[(String, String)], st: &mut
             return 1;
         }
     };
+    if HOSTILE.with(|h| h.get()) {
+        st.inc("projects_reached_through_a_hostile_prehistory");
+    }
     let classes = classes_of(w);
     let mut problems: Vec<String> = Vec::new();
     let mut nontrivial = false;
